@@ -1,2 +1,529 @@
-// Package c04 is the check for property C04 (see DESIGN.md section 3).
+// Package c04: compatible changes are never reported and breaking categories are ordered.
+//
+// Bounded-exhaustive exploration over the schema DSL / operator catalogue of checks/c03:
+//
+//	(a) identity, cosmetic re-renderings (comments, whitespace, blank lines, import order) and chains of
+//	    additive operators (every S_i compared with every earlier S_j) must produce zero annotations in
+//	    FILE / PACKAGE / WIRE_JSON / WIRE of buf.yaml v1beta1 / v1 / v2;
+//	(b) for every (old, new) pair of the C03 catalogue (breaking edits included, also with surroundings) and
+//	    for every ordered pair of edited schemas (e1(S), e2(S)):
+//	    clean(FILE) => clean(PACKAGE) => clean(WIRE_JSON) => clean(WIRE), per config version.
+//
+// The oracle is a relation between runs (zero / implication), independent of the handlers' logic.
 package c04
+
+import (
+	"fmt"
+	"os"
+	"runtime/debug"
+	"strings"
+	"sync"
+	"time"
+
+	"github.com/bufbuild/buf/private/bufpkg/bufimage"
+	"github.com/bufbuild/bufverif/checks/c03"
+	"github.com/bufbuild/bufverif/internal/bufx"
+	"github.com/bufbuild/bufverif/internal/enum"
+	"github.com/bufbuild/bufverif/internal/evid"
+)
+
+func init() {
+	evid.Register(&evid.Check{ID: "C04", Level: "exploration", Run: run, QuickBudget: 300 * time.Second, ThoroughBudget: 30 * time.Minute})
+}
+
+type caseT struct {
+	Kind        string               `json:"kind"`
+	Pair        string               `json:"pair"`
+	Config      string               `json:"config"`
+	Annotations []bufx.Annotation    `json:"annotations,omitempty"`
+	Clean       map[string]bool      `json:"clean_per_category,omitempty"`
+	Changed     map[string][2]string `json:"changed_files_old_new,omitempty"`
+}
+
+func changed(oldR, newR *c03.Rendered) map[string][2]string {
+	out := map[string][2]string{}
+	for p, t := range oldR.Files {
+		if newR.Files[p] != t {
+			out[p] = [2]string{t, newR.Files[p]}
+		}
+	}
+	for p, t := range newR.Files {
+		if _, ok := oldR.Files[p]; !ok {
+			out[p] = [2]string{"", t}
+		}
+	}
+	return out
+}
+
+func ruleOf(anns []bufx.Annotation) string {
+	set := map[string]bool{}
+	for _, a := range anns {
+		set[a.Type] = true
+	}
+	return strings.Join(bufx.SortedKeys(set), "+")
+}
+
+type runner struct {
+	r   *evid.Run
+	eng *c03.Engine
+	mu  sync.Mutex
+	n   map[string]int
+}
+
+func (x *runner) add(key string, n int) {
+	x.mu.Lock()
+	x.n[key] += n
+	x.mu.Unlock()
+}
+
+// silent demands zero annotations for new vs old under every config.
+func (x *runner) silent(kind, opSig, pair string, oldR, newR *c03.Rendered, oldImg, newImg bufimage.Image, cfgs []c03.Config) {
+	for _, c := range cfgs {
+		anns, err := x.eng.Breaking(c, newImg, oldImg)
+		x.r.Eval(1)
+		if err != nil {
+			if strings.HasPrefix(err.Error(), "config ") {
+				x.r.Incomplete("harness: " + err.Error())
+				continue
+			}
+			x.r.Violate("compatible-error/"+kind+"/"+opSig, fmt.Sprintf("%s %s under %s: Breaking failed: %v", kind, pair, c, err),
+				caseT{Kind: kind, Pair: pair, Config: c.String(), Changed: changed(oldR, newR)})
+			continue
+		}
+		if len(anns) > 0 {
+			x.r.Violate("compatible-reported/"+kind+"/"+opSig+"/"+ruleOf(anns),
+				fmt.Sprintf("%s %s under %s: %d annotation(s) for a compatible change, first: %s %q", kind, pair, c, len(anns), anns[0].Type, anns[0].Message),
+				caseT{Kind: kind, Pair: pair, Config: c.String(), Annotations: anns, Changed: changed(oldR, newR)})
+		}
+	}
+	x.add("silent_pairs_"+kind, 1)
+}
+
+// hierarchy checks clean(FILE) => clean(PACKAGE) => clean(WIRE_JSON) => clean(WIRE) for each version.
+func (x *runner) hierarchy(kind, opSig, pair string, oldR, newR *c03.Rendered, oldImg, newImg bufimage.Image, versions []string) {
+	for _, v := range versions {
+		clean := map[string]bool{}
+		byCat := map[string][]bufx.Annotation{}
+		ok := true
+		for _, cat := range c03.Categories {
+			c := c03.Config{Version: v, Use: cat}
+			anns, err := x.eng.Breaking(c, newImg, oldImg)
+			x.r.Eval(1)
+			if err != nil {
+				if strings.HasPrefix(err.Error(), "config ") {
+					x.r.Incomplete("harness: " + err.Error())
+				} else {
+					x.r.Violate("hierarchy-error/"+opSig, fmt.Sprintf("%s %s under %s: Breaking failed: %v", kind, pair, c, err),
+						caseT{Kind: kind, Pair: pair, Config: c.String(), Changed: changed(oldR, newR)})
+				}
+				ok = false
+				break
+			}
+			clean[cat] = len(anns) == 0
+			byCat[cat] = anns
+		}
+		if !ok {
+			continue
+		}
+		pattern := ""
+		for _, cat := range c03.Categories {
+			if clean[cat] {
+				pattern += "c"
+			} else {
+				pattern += "D"
+			}
+		}
+		x.add("hierarchy_pattern_"+pattern, 1)
+		for i := 0; i+1 < len(c03.Categories); i++ {
+			strict, lax := c03.Categories[i], c03.Categories[i+1]
+			if clean[strict] {
+				x.add("hierarchy_antecedent_true_"+strict, 1)
+			}
+			if clean[strict] && !clean[lax] {
+				x.r.Violate("hierarchy/"+v+"/"+strict+"-clean-but-"+lax+"-reports/"+ruleOf(byCat[lax]),
+					fmt.Sprintf("%s %s, %s: clean under %s but %s reports %d annotation(s), first: %s %q", kind, pair, v, strict, lax, len(byCat[lax]), byCat[lax][0].Type, byCat[lax][0].Message),
+					caseT{Kind: kind, Pair: pair, Config: v + "/" + lax, Annotations: byCat[lax], Clean: clean, Changed: changed(oldR, newR)})
+			}
+		}
+	}
+	x.add("hierarchy_pairs_"+kind, 1)
+}
+
+// styles are the cosmetic rendering variants.
+var styles = []struct {
+	name string
+	st   c03.Style
+}{
+	{"canonical", c03.Style{}},
+	{"line-comments", c03.Style{Comments: 1}},
+	{"block-and-trailing-comments", c03.Style{Comments: 2}},
+	{"tabs", c03.Style{Indent: "\t"}},
+	{"wide-indent-blank-lines", c03.Style{Indent: "      ", BlankLines: true}},
+	{"reversed-imports", c03.Style{ReverseImports: true}},
+	{"spaced-tokens", c03.Style{OpenBraceNL: true}},
+	{"everything", c03.Style{Comments: 2, Indent: "   ", BlankLines: true, ReverseImports: true, OpenBraceNL: true}},
+}
+
+func run(r *evid.Run) {
+	full := !r.Quick()
+	defer debug.SetGCPercent(debug.SetGCPercent(400))
+	x := &runner{r: r, eng: c03.NewEngine(), n: map[string]int{}}
+	maxChain := 2
+	if full {
+		maxChain = 3
+	}
+	r.Rule(fmt.Sprintf("(a) silent: per base schema in {proto2, proto3, edition 2023}: identity; every ordered pair of %d cosmetic renderings (comments, indentation, blank lines, import order, token spacing); every chain of length <= 2 over the additive operators at their canonical site (max length here: %d; length 3 over the 12 core operators; thorough: single steps also at every site), each S_i compared with every earlier S_j; configs FILE/PACKAGE/WIRE_JSON/WIRE and their union x v1beta1/v1/v2 (quick: intermediate pairs only under the unions). "+
+		"(b) hierarchy: every (old,new) pair of the C03 catalogue (quick: the instances at the top / file positions without surrounding, all versions, field-type table v2; thorough: every position, also with the index-shifting surrounding) and every ordered pair of edited schemas of a base (quick: one per distinct expected-rule set, <=28, v2; thorough: one per operator+variant, <=60, all versions); "+
+		"distinct key = kind/pair id; a pair is non-trivial when old and new differ", len(styles), maxChain))
+	r.Assume("'additive' is the property's list: new files, messages, enums, services, RPCs, oneofs (with new fields), reserved ranges/names, enum values and non-required fields with fresh numbers and names, new imports; extensions with fresh numbers are treated as non-required fields")
+	r.Assume("the additive operators never reuse a number or name of the base (numbers >= 700, names containing 'added')")
+	r.Assume("rule handlers run independently of each other, so intermediate chain pairs in the quick tier run under use:[FILE,PACKAGE,WIRE_JSON,WIRE] only; the end-to-end pair of every chain runs under each category separately")
+
+	phases := map[string]bool{"cosmetic": true, "additive": true, "catalogue": true, "pairs": true}
+	onlyOps := map[string]bool{}
+	if v := os.Getenv("VERIF_C04_PHASES"); v != "" {
+		// debugging / mutant triage aid (run is then marked incomplete)
+		phases = map[string]bool{}
+		for _, p := range strings.Split(v, ",") {
+			phases[p] = true
+		}
+		r.Incomplete("filtered run: VERIF_C04_PHASES=" + v)
+	}
+	if v := os.Getenv("VERIF_C04_ONLY_OPS"); v != "" {
+		for _, o := range strings.Split(v, ",") {
+			onlyOps[o] = true
+		}
+		r.Incomplete("filtered run: VERIF_C04_ONLY_OPS=" + v)
+	}
+	cats := c03.CategoryConfigs()
+	unions := c03.UnionConfigs()
+	all := append(append([]c03.Config(nil), unions...), cats...)
+
+	// ---------------------------------------------------------------- (a) identity + cosmetic
+	type job func()
+	var jobs []job
+	for _, b := range c03.Bases() {
+		if !phases["cosmetic"] {
+			break
+		}
+		b := b
+		s := c03.WithImports(b.Schema)
+		for i := range styles {
+			for j := range styles {
+				i, j := i, j
+				jobs = append(jobs, func() {
+					oldR, newR := s.Render(styles[i].st), s.Render(styles[j].st)
+					oldImg, err1 := x.eng.CachedImage(oldR)
+					newImg, err2 := x.eng.CachedImage(newR)
+					if err1 != nil || err2 != nil {
+						r.Incomplete(fmt.Sprintf("harness: cosmetic rendering does not build: %v %v", err1, err2))
+						return
+					}
+					kind := "cosmetic"
+					if i == j {
+						kind = "identity"
+					}
+					pair := b.Name + ":" + styles[i].name + "->" + styles[j].name
+					x.silent(kind, styles[j].name, pair, oldR, newR, oldImg, newImg, all)
+					if i != j {
+						r.Distinct(kind + "/" + pair)
+					}
+				})
+			}
+		}
+	}
+	r.ParallelFor(len(jobs), 0, func(i int) { jobs[i]() })
+
+	// ---------------------------------------------------------------- (a) additive chains
+	ops := c03.AdditiveOps()
+	opNames := []string{}
+	for _, o := range ops {
+		opNames = append(opNames, o.Name)
+	}
+	r.Set("additive_operators", opNames)
+	for _, b := range c03.Bases() {
+		if r.Expired() || !phases["additive"] {
+			break
+		}
+		b := b
+		baseR := b.Schema.Render(c03.Style{})
+		// canonical and all sites per operator, computed on the base
+		var canon []step
+		var every []step
+		for oi, o := range ops {
+			sites := o.Sites(b.Schema)
+			if len(sites) == 0 || (len(onlyOps) > 0 && !onlyOps[o.Name]) {
+				continue
+			}
+			canon = append(canon, step{oi, sites[0]})
+			for _, st := range sites {
+				every = append(every, step{oi, st})
+			}
+		}
+		x.add("additive_operators_applicable_"+b.Name, len(canon))
+		x.add("additive_sites_"+b.Name, len(every))
+		apply := func(steps []step) *c03.Schema {
+			s := b.Schema.Clone()
+			for g, st := range steps {
+				ops[st.op].Apply(s, st.site, g+1)
+			}
+			return s
+		}
+		name := func(steps []step) string {
+			parts := make([]string, len(steps))
+			for i, st := range steps {
+				parts[i] = ops[st.op].Name + "@" + st.site
+			}
+			return b.Name + ":" + strings.Join(parts, ",")
+		}
+		sig := func(steps []step) string {
+			parts := make([]string, len(steps))
+			for i, st := range steps {
+				parts[i] = ops[st.op].Name
+			}
+			return strings.Join(parts, "+")
+		}
+		var chains [][]step
+		for _, seq := range enum.Sequences(len(canon), 1, 2) {
+			ch := make([]step, len(seq))
+			for i, k := range seq {
+				ch[i] = canon[k]
+			}
+			chains = append(chains, ch)
+		}
+		if maxChain >= 3 {
+			// length 3 over the core operators (the ones that touch the same parents: fields, oneofs,
+			// reserved, enum values, nested and top-level types, imports, files)
+			var core []step
+			for _, st := range canon {
+				if coreOps[ops[st.op].Name] {
+					core = append(core, st)
+				}
+			}
+			x.add("additive_core_operators_"+b.Name, len(core))
+			for _, seq := range enum.Sequences(len(core), 3, 3) {
+				chains = append(chains, []step{core[seq[0]], core[seq[1]], core[seq[2]]})
+			}
+		}
+		if full {
+			for _, st := range every {
+				if st.site != canon0(canon, st.op) {
+					chains = append(chains, []step{st})
+				}
+			}
+		}
+		x.add("additive_chains_"+b.Name, len(chains))
+		r.ParallelFor(len(chains), 0, func(i int) {
+			ch := chains[i]
+			last := apply(ch)
+			lastR := last.Render(c03.Style{})
+			var lastImg bufimage.Image
+			var err error
+			if len(ch) < 3 {
+				lastImg, err = x.eng.CachedImage(lastR) // prefixes are shared by many chains
+			} else {
+				lastImg, err = x.eng.Image(lastR)
+			}
+			if err != nil {
+				r.Incomplete(fmt.Sprintf("harness: additive chain %s does not build: %v", name(ch), err))
+				return
+			}
+			for j := 0; j < len(ch); j++ {
+				prevR := baseR
+				if j > 0 {
+					prevR = apply(ch[:j]).Render(c03.Style{})
+				}
+				prevImg, err := x.eng.CachedImage(prevR)
+				if err != nil {
+					r.Incomplete(fmt.Sprintf("harness: additive chain %s does not build: %v", name(ch[:j]), err))
+					return
+				}
+				// end-to-end pair of a single step: every config; of longer chains: the v2 categories plus
+				// the unions of the older versions (thorough, length 2: every config); intermediate pairs: unions
+				cfgs := all
+				switch {
+				case j > 0 && full && len(ch) == 2:
+					cfgs = unions
+				case j > 0:
+					cfgs = unions[2:]
+				case len(ch) == 3 || (len(ch) == 2 && !full):
+					cfgs = append(append([]c03.Config(nil), unions[:2]...), cats[8:]...)
+				}
+				pair := fmt.Sprintf("%s  (S%d vs S%d)", name(ch), len(ch), j)
+				x.silent("additive", sig(ch[j:]), pair, prevR, lastR, prevImg, lastImg, cfgs)
+				r.Distinct("additive/" + pair)
+			}
+			r.SampleEvery(i, 2003, func() any {
+				return caseT{Kind: "additive", Pair: name(ch), Config: "all", Changed: changed(baseR, lastR)}
+			})
+		})
+	}
+
+	// ---------------------------------------------------------------- (b) hierarchy over the C03 catalogue
+	process := func(instances []c03.Instance) {
+		if len(onlyOps) > 0 {
+			var keep []c03.Instance
+			for _, in := range instances {
+				if onlyOps[in.Op] {
+					keep = append(keep, in)
+				}
+			}
+			instances = keep
+		}
+		type item struct {
+			in   *c03.Instance
+			mode int
+		}
+		var items []item
+		for i := range instances {
+			in := &instances[i]
+			shallow := in.Pos == "top" || in.Pos == "file"
+			if !phases["catalogue"] || (!full && !shallow) {
+				continue // the verdict pattern of an edit does not depend on its nesting position; thorough runs them all
+			}
+			items = append(items, item{in, c03.SurroundNone})
+			if full && in.Op != "field-type" {
+				items = append(items, item{in, c03.SurroundBefore})
+			}
+		}
+		r.ParallelFor(len(items), 0, func(i int) {
+			it := items[i]
+			p, err := x.eng.Prepare(it.in, it.mode)
+			if err != nil {
+				r.Incomplete("harness: " + err.Error())
+				return
+			}
+			versions := c03.Versions
+			if !full && it.in.Op == "field-type" {
+				versions = []string{"v2"}
+			}
+			pair := it.in.ID() + " [" + c03.SurroundNames[it.mode] + "]"
+			x.hierarchy("catalogue", it.in.Op, pair, p.OldR, p.NewR, p.OldImg, p.NewImg, versions)
+			r.Distinct("catalogue/" + pair)
+			r.SampleEvery(i, 2503, func() any { return caseT{Kind: "catalogue", Pair: pair, Config: strings.Join(versions, ",")} })
+		})
+		// ordered pairs of edited schemas of the same base: first instance per operator (thorough: per operator+variant, capped)
+		seen := map[string]bool{}
+		type edited struct {
+			id string
+			op string
+			s  *c03.Schema
+		}
+		var eds []edited
+		for i := range instances {
+			in := &instances[i]
+			// quick: one edited schema per distinct set of expected rules; thorough: one per operator + variant
+			// (the big tables by operator only), capped at 60 per base
+			rules := map[string]bool{}
+			for _, ex := range in.Expects {
+				rules[ex.Rule] = true
+			}
+			key := strings.Join(bufx.SortedKeys(rules), "+")
+			if full {
+				key = in.Op
+				if in.Op != "field-type" && in.Op != "file-option" && in.Op != "field-delete" && in.Op != "field-ctype" && in.Op != "field-jstype" && in.Op != "rpc-change" {
+					key = in.Op + "/" + in.Variant
+				}
+			}
+			if seen[key] || (full && len(eds) >= 60) || (!full && len(eds) >= 28) {
+				continue
+			}
+			seen[key] = true
+			eds = append(eds, edited{in.ID(), in.Op, in.New})
+		}
+		if len(eds) == 0 || !phases["pairs"] {
+			return
+		}
+		eds = append(eds, edited{instances[0].Base + "/base", "base", instances[0].Old})
+		x.add("edited_schemas_for_pairs", len(eds))
+		type pr struct{ a, b int }
+		var prs []pr
+		for a := range eds {
+			for b := range eds {
+				if a != b {
+					prs = append(prs, pr{a, b})
+				}
+			}
+		}
+		r.ParallelFor(len(prs), 0, func(i int) {
+			a, b := eds[prs[i].a], eds[prs[i].b]
+			oldR, newR := a.s.Render(c03.Style{}), b.s.Render(c03.Style{})
+			oldImg, err1 := x.eng.CachedImage(oldR)
+			newImg, err2 := x.eng.CachedImage(newR)
+			if err1 != nil || err2 != nil {
+				r.Incomplete(fmt.Sprintf("harness: edited schema does not build: %v %v", err1, err2))
+				return
+			}
+			pair := a.id + "  =>  " + b.id
+			versions := []string{"v2"}
+			if full {
+				versions = c03.Versions
+			}
+			x.hierarchy("edit-pair", a.op+"=>"+b.op, pair, oldR, newR, oldImg, newImg, versions)
+			r.Distinct("edit-pair/" + pair)
+		})
+	}
+	if !r.Expired() {
+		process(c03.SyntaxInstances())
+	}
+	for _, b := range c03.Bases() {
+		if r.Expired() {
+			break
+		}
+		process(c03.Instances(b, false))
+	}
+
+	// ---------------------------------------------------------------- coverage
+	keys := bufx.SortedKeys(x.n)
+	patterns := map[string]int{}
+	for _, k := range keys {
+		if strings.HasPrefix(k, "hierarchy_pattern_") {
+			patterns[strings.TrimPrefix(k, "hierarchy_pattern_")] = x.n[k]
+		} else {
+			r.Set(k, x.n[k])
+		}
+	}
+	r.Set("hierarchy_patterns_FILE_PACKAGE_WIREJSON_WIRE(c=clean,D=dirty)", patterns)
+	if r.Expired() || len(onlyOps) > 0 || len(phases) < 4 {
+		return
+	}
+	for _, k := range []string{"silent_pairs_identity", "silent_pairs_cosmetic", "silent_pairs_additive", "hierarchy_pairs_catalogue", "hierarchy_pairs_edit-pair",
+		"hierarchy_antecedent_true_FILE", "hierarchy_antecedent_true_PACKAGE", "hierarchy_antecedent_true_WIRE_JSON"} {
+		if x.n[k] == 0 {
+			r.Incomplete("clause never exercised: " + k)
+		}
+	}
+	mixed := 0
+	for p, n := range patterns {
+		if strings.Contains(p, "c") && strings.Contains(p, "D") {
+			mixed += n
+		}
+	}
+	r.Set("hierarchy_pairs_with_mixed_verdicts", mixed)
+	if mixed == 0 {
+		r.Incomplete("no pair distinguished the categories (hierarchy clause vacuous)")
+	}
+}
+
+// coreOps are the additive operators used for chains of length 3.
+var coreOps = map[string]bool{
+	"new-file-same-package": true, "new-message": true, "new-nested-message": true, "new-nested-enum": true,
+	"new-rpc": true, "new-oneof": true, "message-reserved-range": true, "message-reserved-name": true,
+	"new-enum-value": true, "new-field-singular": true, "new-field-repeated": true, "new-field-in-existing-oneof": true,
+}
+
+// step is one additive operator applied at one site.
+type step struct {
+	op   int
+	site string
+}
+
+// canon0 returns the canonical site of an operator.
+func canon0(canon []step, op int) string {
+	for _, c := range canon {
+		if c.op == op {
+			return c.site
+		}
+	}
+	return ""
+}
